@@ -44,7 +44,7 @@ claim("C21", "model_checking", "TLA+ spec of client positions and transcribed se
       "DESIGN.md section 4 C21")
 claim("C25", "model_checking", "TLA+ spec of writer/channel/reader (TLC invariant over every case) + replay of every case on the real Writer/Reader with TLC-chosen chunking",
       "Slip.tla models the stuffing writer, the SLIPMUX wrapping incl. the CoAP FCS16, a channel that cuts the wire at every set of up to 2 positions (as "
-      "ordinary short reads and as empty reads), and the byte loop of Reader.ReadPacket under SlipMuxReader's prefix accumulation. TLC checks "
+      "ordinary short reads and as 1-3 consecutive empty reads per boundary, constant IdlePolls), and the byte loop of Reader.ReadPacket under SlipMuxReader's prefix accumulation. TLC checks "
       "delivered = sent for every case (payload alphabets with END/ESC/ESC_END/ESC_ESC and one representative per UTF-8 byte class, 1-3 packets); every case is "
       "executed on the real code with a transport that serves exactly those chunks; wire bytes and delivered packets are compared.",
       "Trusted: TLC, the chunking transport of the harness. Domain: non-empty payloads, valid frame types, CoAP payload >= 4 bytes.",
@@ -128,7 +128,8 @@ claim("C26", "model_checking", "TLA+ spec of writer/chunked channel/reader (TLC 
       "DapFrame.tla models the Content-Length writer, a channel that cuts the byte stream at every set of up to 2 positions, and readContentLengthHeader/ReadBaseMessage "
       "transcribed; TLC checks decoded = sent for every case (bodies over {x, CR, LF, C} incl. bodies that contain delimiter fragments; 1-3 messages) and every case is "
       "executed on the real WriteBaseMessage/ReadBaseMessage through a transport that serves exactly those chunks. Codec: the harness enumerates the codec's constructor "
-      "tables (105 kinds), fills each message by reflection with three deterministic patterns and requires WriteProtocolMessage -> chunked stream -> ReadProtocolMessage to "
+      "tables (105 kinds) for the names only; the message written for a name is the type the protocol's naming rule gives (harness/net/dap_schema_table.go, "
+      "independent of the tables), filled by reflection with three deterministic patterns and requires WriteProtocolMessage -> chunked stream -> ReadProtocolMessage to "
       "return an equal message, for 40 chunkings per pattern.",
       "Trusted: TLC, the chunking transport, reflection-based fill. Framing/order/dispatch are decided by the spec; field fidelity is an identity check on the fill patterns "
       "(level: exploration for that part). Malformed headers are not driven.",
